@@ -27,7 +27,7 @@ from ..env import Rng, patched
 from ..att import layout as L, sgx as S, seams
 from ..simdev.base import World
 from ..simdev.attdev import (LedgerFactory, GenuineLedger, SgxPlatform, GenuineSgx,
-                              ledger_seed)
+                              ledger_seed, fw_der_signature, SIG_OPS)
 from ..att import k1
 
 PIN = "abcd1234"
@@ -226,6 +226,7 @@ class C15(Check):
                                                            legacy_signer=lg, profile=prof)
             self.platforms[(32, 3, prof)] = SgxPlatform(Rng("c15-sgx-32-3"), 32, 3, profile=prof)
         self.ud = Rng("c15-ud").nz_bytes(32)
+        self.sig_shapes = self.find_signature_shapes()
         # wallets (last key varied) whose public-keys hash starts / ends with each boundary byte
         self.salts = {lg: self.find_salts(self.factories[lg]) for lg in (False, True)}
         base = "/dev/shm" if os.path.isdir("/dev/shm") else None
@@ -236,6 +237,44 @@ class C15(Check):
             if os.getpid() == owner:
                 shutil.rmtree(d, ignore_errors=True)
         atexit.register(cleanup)
+
+    def find_signature_shapes(self):
+        """UD values for which the quote signature of the (32, 3) platform has an r or s that
+        starts 00 then a byte >= 80 / 00 then a byte < 80 / a byte >= 80 (thorough: 00 00): the
+        encodings der_utils.c treats differently.  -> shape name -> UD value"""
+        plat = self.platforms[(32, 3)]
+        en = plat.enclave
+
+        def shapes(v):
+            out = set()
+            if v[0] == 0 and v[1] == 0:
+                out.add("0000")
+            elif v[0] == 0:
+                out.add("00hi" if v[1] & 0x80 else "00lo")
+            elif v[0] & 0x80:
+                out.add("hi")
+            else:
+                out.add("lo")
+            return out
+        need = {p + x for p in "rs" for x in ("00hi", "00lo", "hi", "lo")}
+        if self.thorough:
+            need.add("any0000")
+        found = {}
+        rng = Rng("c15-sigshape")
+        n = 0
+        while need:
+            n += 1
+            if n > 400000:
+                raise HarnessError("signature shapes not found: %r" % sorted(need))
+            ud = rng.bytes(32)
+            rs = en.fields(plat.message(ud))["signature"]
+            got = {"r" + x for x in shapes(rs[:32])} | {"s" + x for x in shapes(rs[32:])}
+            if "r0000" in got or "s0000" in got:
+                got.add("any0000")
+            for g in got & need:
+                need.discard(g)
+                found[g] = ud
+        return found
 
     def find_salts(self, fac):
         """salts of the last wallet key for which the device's public-keys hash starts / ends
@@ -286,6 +325,8 @@ class C15(Check):
     def ud_for(self, cfg):
         if cfg.get("values") is not None:
             return L.shape(self.ud, cfg["values"])
+        if cfg.get("sigshape") is not None:
+            return self.sig_shapes[cfg["sigshape"]]
         if cfg.get("ud") is None:
             return self.ud
         b = bytes.fromhex(cfg["ud"])
@@ -323,6 +364,7 @@ class C15(Check):
                     cs.append({"kind": "ledger", "cfg": cfg, "field": f})
                 cs.append({"kind": "ledger", "cfg": cfg, "field": "pages"})
                 cs.append({"kind": "ledger", "cfg": cfg, "field": "pubkey-swap"})
+                cs.append({"kind": "ledger", "cfg": cfg, "field": "sigalg"})
         for a in AUTH_LENS:
             for c in CHAIN_LENS:
                 cfg = {"auth": a, "chain": c}
@@ -335,10 +377,12 @@ class C15(Check):
                 cs.append({"kind": "sgx", "cfg": cfg, "field": "root-der"})
                 cs.append({"kind": "sgx", "cfg": cfg, "field": "pages"})
                 cs.append({"kind": "sgx", "cfg": cfg, "field": "pubkey-swap"})
+                cs.append({"kind": "sgx", "cfg": cfg, "field": "sigalg"})
         for prof in L.VALUE_PROFILES[1:]:
             cs.append({"kind": "value-shapes", "values": prof})
         for sp in UD_SPELLINGS:
             cs.append({"kind": "ud-spellings", "udspell": sp})
+        cs.append({"kind": "signature-shapes"})
         for zone in seams.ZONES:
             cs.append({"kind": "sgx-zones", "zone": zone})
         return cs
@@ -384,6 +428,13 @@ class C15(Check):
             self.execute("sgx", {"auth": 32, "chain": 3, "values": case["values"]}, None,
                          "genuine", stats, vs)
             return vs
+        if k == "signature-shapes":
+            # genuine devices whose quote signature has each shape the firmware's DER encoder
+            # distinguishes (every signature answer is encoded as der_utils.c does it)
+            for shape in sorted(self.sig_shapes):
+                self.execute("sgx", {"auth": 32, "chain": 3, "sigshape": shape}, None, "genuine",
+                             stats, vs)
+            return vs
         if k == "ud-spellings":
             # the UD source argument: plain / 0x-prefixed / upper case, for every value shape
             for prof in [None] + L.VALUE_PROFILES[1:]:
@@ -418,6 +469,26 @@ class C15(Check):
         cfg, field = case["cfg"], case["field"]
         if field is None:
             self.execute(k, cfg, None, "genuine", stats, vs)
+            return vs
+        if field == "sigalg":
+            # algebraic changes of a signature: (r, N-s), (N-r, s), (s, r), r / s re-encoded with a
+            # superfluous leading zero.  Version 1 (libsecp256k1, strict DER, low s): all refused.
+            # Version 2 (raw r || s in the envelope, python-ecdsa): (r, N-s) verifies as well --
+            # ECDSA's own symmetry, which no statement about the code can exclude: dont_care.
+            if k == "ledger":
+                sigs = ["devkey.sig", "endo.sig", "ui.sig", "signer.sig"]
+                for f in sigs:
+                    for op in SIG_OPS:
+                        self.execute(k, cfg, {"kind": "sigalg", "field": f, "op": op}, "must-fail",
+                                     stats, vs)
+            else:
+                for f in ("env.signature", "env.qe_report_body_signature"):
+                    for op in ("high-s", "neg-r", "swap"):
+                        self.execute(k, cfg, {"kind": "sigalg", "field": f, "op": op},
+                                     "open" if op == "high-s" else "must-fail", stats, vs)
+                for op in SIG_OPS:
+                    self.execute(k, cfg, {"kind": "sigalg", "field": "sig", "op": op}, "open",
+                                 stats, vs)
             return vs
         if field == "pubkey-swap":
             for i in range(6):
@@ -477,7 +548,7 @@ class C15(Check):
         elif field in ("message", "both"):
             n = len(f["custom_message"])
         elif field == "sig":
-            n = len(S.der_sig(f["signature"]))
+            n = len(fw_der_signature(f["signature"]))
         elif field == "apphash":
             n = 32
         else:
@@ -839,7 +910,9 @@ class C15(Check):
                 got = rr.to_bytes(32, "big") + ss.to_bytes(32, "big")
             except Exception:   # noqa
                 got = None
-            if got != raw:
+            mirrored = raw[:32] + (S.P256_N - int.from_bytes(raw[32:], "big")).to_bytes(32, "big")
+            if got != raw and not (alter is not None and alter.get("op") == "high-s"
+                                   and got == mirrored):
                 mism.append(("file:%s.signature" % el, got, raw))
         if sorted(doc.get("targets") or []) != ["quote"]:
             mism.append(("file:targets", doc.get("targets"), ["quote"]))
